@@ -81,6 +81,18 @@ func critical(ctx context.Context, st *GState, what string) {
 			gp = ""
 		}
 		env.SeenStates[gp] = st
+		if env.SeenAll == nil {
+			env.SeenAll = map[string][]*GState{}
+		}
+		known := false
+		for _, o := range env.SeenAll[gp] {
+			if o == st {
+				known = true
+			}
+		}
+		if !known {
+			env.SeenAll[gp] = append(env.SeenAll[gp], st)
+		}
 		env.seenSeq++
 		if env.SeenSeq == nil {
 			env.SeenSeq = map[string]int{}
